@@ -77,9 +77,26 @@ RSign(a)   == IF a[1] > 0 THEN 1 ELSE IF a[1] < 0 THEN -1 ELSE 0
 RPos(a)    == ~IsOvf(a) /\ a[1] > 0
 RNegative(a) == ~IsOvf(a) /\ a[1] < 0
 
-\* a < b  (only meaningful when neither is OVF); guarded cross multiplication
-RLt(a, b) == LET d == RSub(a, b) IN ~IsOvf(d) /\ d[1] < 0
-RLe(a, b) == LET d == RSub(a, b) IN ~IsOvf(d) /\ d[1] <= 0
+\* exact three-way comparison of two rationals *without multiplication* (never
+\* overflows): compare integer parts, then the reciprocals of the fractional parts
+\* (continued-fraction expansion).  Result: -1, 0, 1.
+RECURSIVE CmpFrac(_, _, _, _)
+CmpFrac(n1, d1, n2, d2) ==      \* d1, d2 > 0
+    LET q1 == n1 \div d1
+        q2 == n2 \div d2
+        r1 == n1 % d1
+        r2 == n2 % d2
+    IN  IF q1 < q2 THEN -1
+        ELSE IF q1 > q2 THEN 1
+        ELSE IF r1 = 0 /\ r2 = 0 THEN 0
+        ELSE IF r1 = 0 THEN -1
+        ELSE IF r2 = 0 THEN 1
+        ELSE -CmpFrac(d1, r1, d2, r2)     \* r1/d1 ? r2/d2  <=>  d2/r2 ? d1/r1
+RCmp(a, b) == CmpFrac(a[1], a[2], b[1], b[2])
+
+\* comparisons (FALSE when an operand is the overflow sentinel)
+RLt(a, b) == ~IsOvf(a) /\ ~IsOvf(b) /\ RCmp(a, b) < 0
+RLe(a, b) == ~IsOvf(a) /\ ~IsOvf(b) /\ RCmp(a, b) <= 0
 REq(a, b) == a = b   \* normal forms are unique
 
 RAbs(a) == IF IsOvf(a) THEN OVF ELSE <<Abs(a[1]), a[2]>>
@@ -94,6 +111,9 @@ RProdSeq(s) == IF s = <<>> THEN One ELSE RMul(Head(s), RProdSeq(Tail(s)))
 \* sum over i \in a..b of f(i)  (f is an operator)
 RECURSIVE RSum(_, _, _)
 RSum(F(_), a, b) == IF a > b THEN Zero ELSE RAdd(F(a), RSum(F, a + 1, b))
+
+\* sum of F(i) for i in lo..hi (empty sum = 0); F is an operator (LAMBDA)
+RSumFn(F(_), lo, hi) == RSumSeq([i \in 1..((hi - lo) + 1) |-> F((lo + i) - 1)])
 
 SeqHasOvf(s) == \E i \in 1..Len(s) : IsOvf(s[i])
 =============================================================================
